@@ -1,6 +1,7 @@
 import OPM.Model.Analyzer
 import OPM.Lemmas.Analyzer
 import OPM.Gen.UnitTable
+import OPM.Gen.AnalyzerOps
 /-!
 # C19 Method analysis never crashes and flags undefined names
 
@@ -8,18 +9,22 @@ import OPM.Gen.UnitTable
 without raising. Every reference to an undefined tag or command, and every incomplete condition, is reported as
 an error on the offending line, so the editor keeps showing all other diagnostics."
 
-Model: `OPM.Analyzer` (`analyze E true nodes` = the code with `fixes/C19-undefined-tag-falls-through.diff`;
-`analyze E false nodes` = /repo HEAD).  All theorems quantify over every node list, every tag and command set and
-**every** similarity function `E.similar` (the Levenshtein ratio is a parameter).
+Model: `OPM.Analyzer`.  `analyze E true nodes` = the condition, Simulate and command analyzers of the code with the two
+C19 repairs (`…false…` = before them); `analyzeAll E true xs` = these plus the indentation, threshold and macro
+analyzers, in the order `SemanticCheckAnalyzer` runs them.  The three remaining analyzers (unreachable code, infinite
+block, whitespace) perform no partial operation (`unmodelled_analyzers_have_no_partial_operation`, a fact regenerated
+from the source).  Not in the model: the parser, `create_analysis_input`, `AnalyzerItem` ranges — the oracle runs them.
+All theorems quantify over every node list, every tag and command set — tag units are arbitrary strings, also units
+the unit table lacks — and **every** similarity function `E.similar` (the Levenshtein ratio is a parameter).
 
-Hypotheses (`EnvWF`, `NodeWF`) are facts established outside the analyzers: tag units are supported units or
-`None` (UOD validation), the unit table is well-formed (`table_envWF` for the regenerated table), the name a
-command node is looked up by is not blank and `Simulate off` arguments are stripped (parser).
+Hypotheses: `EnvWF` = the unit table is well-formed (`table_envWF`: true of the regenerated table); `NodeWF` = the name
+a command node is looked up by is not blank and `Simulate off` arguments are stripped (parser guarantees).
 -/
 namespace OPM.C19
 open OPM.Units OPM.Analyzer
 
-/-- The analysis completes without raising: no exception path of the three analyzers is reachable. -/
+/-- The condition, Simulate and command analyzers complete without raising: none of their exception paths
+    (`tags.get`, `commands.get`, `get_compatible_unit_names`, …) is reachable.  (`analyzeAll_total`: all six.) -/
 theorem analyze_total (E : Env) (nodes : List Node) (hE : EnvWF E) (hN : ∀ n ∈ nodes, NodeWF n) :
     ∃ items, analyze E true nodes = .ok items := by
   have hc : ∃ l, collect (condItems E true) nodes = .ok l := by
@@ -158,7 +163,7 @@ theorem analyzeTov_incomplete_ne_nil {E : Env} {an : An} {sim : Bool} {n : Node}
           · rw [hname] at h2; cases h2; rw [h3] at hb'; cases hb'
           · exact Or.inl h4
           · exact Or.inr h5
-        have hafter : ∀ l', afterTag E an sim n.line c name = .ok l' → l' ≠ [] := by
+        have hafter : ∀ l', afterTag E true an sim n.line c name = .ok l' → l' ≠ [] := by
           intro l' hl'
           unfold afterTag at hl'
           by_cases h4 : (if sim = true then c.op != "=" else c.op == "") = true
@@ -222,20 +227,14 @@ theorem incomplete_condition_flagged (E : Env) (nodes : List Node) (items : List
 
 /-! ## The regenerated unit table satisfies the environment hypothesis; non-vacuity; regression witnesses -/
 
-/-- With the unit table the code defines now, `EnvWF` only asks that every tag unit is one of its units. -/
-theorem table_envWF (E : Env) (hU : E.units = OPM.Gen.unitSys)
-    (ht : ∀ t ∈ E.tags, ∀ u, t.unit = some u → (findRow OPM.Gen.unitSys u).isSome = true) : EnvWF E := by
-  refine ⟨by rw [hU]; decide +kernel, ?_⟩
-  intro t htm u hu
-  have := ht t htm u hu
+/-- The unit table the code defines now satisfies `EnvWF` — whatever the tags' units are. -/
+theorem table_envWF (E : Env) (hU : E.units = OPM.Gen.unitSys) : EnvWF E := by
+  unfold EnvWF
   rw [hU]
-  unfold quantityOf
-  cases hf : findRow OPM.Gen.unitSys u with
-  | none => rw [hf] at this; cases this
-  | some r => exact ⟨r.quantity, rfl⟩
+  decide +kernel
 
 def demoEnv : Env :=
-  ⟨[⟨"Flow", some "L/h"⟩, ⟨"pH", none⟩], [⟨"Wait", false⟩, ⟨"Stop", true⟩],
+  ⟨[⟨"Flow", some "L/h"⟩, ⟨"pH", none⟩, ⟨"Dist", some "furlong"⟩], [⟨"Wait", false⟩, ⟨"Stop", true⟩],
    fun a b => (a, b) == ("Flwo", "Flow"), OPM.Gen.unitSys⟩
 
 /-- `Watch: Xyzzy > 3 L/h` (line 0), `Simulate off: Xyzzy` (1), `Frobnicate: 1` (2), `Alarm: Flow >` (3),
@@ -249,13 +248,7 @@ def demoNodes : List Node := [
   ⟨5, .watch, some ⟨some "Flow", ">", "3 L/h", some "3", some "L/h"⟩, "Watch", "", "Flow > 3 L/h", true, true⟩,
   ⟨6, .command false, none, "Stop", "", "now", true, true⟩]
 
-theorem demo_envWF : EnvWF demoEnv := by
-  apply table_envWF _ rfl
-  intro t ht u hu
-  simp only [demoEnv, List.mem_cons, List.mem_nil_iff, or_false] at ht
-  rcases ht with rfl | rfl
-  · cases hu; decide +kernel
-  · cases hu
+theorem demo_envWF : EnvWF demoEnv := table_envWF _ rfl
 
 -- non-vacuity: the hypotheses hold for a concrete environment and program, and the repaired analysis reports
 -- exactly the expected items, one per offending line, and nothing on the correct line 5
@@ -291,5 +284,105 @@ theorem old_condition_crashes :
 theorem old_simulate_off_silent :
     analyze demoEnv false [⟨1, .simulateOff, none, "Simulate off", "", "Xyzzy", true, true⟩] = .ok [] := by
   decide +kernel
+
+/-! ## All analyzers with decision logic; the remaining three -/
+
+/-- `analyzeAll` succeeds exactly when the three name/unit analyzers do; its items contain theirs. -/
+theorem analyzeAll_ok {E : Env} {r : Bool} {xs : List XNode} {items : List Item}
+    (h : analyzeAll E r xs = .ok items) :
+    ∃ mid, analyze E r (xs.map (·.n)) = .ok mid ∧ ∀ i ∈ mid, i ∈ items := by
+  unfold analyzeAll at h
+  split at h
+  · cases h
+  · rename_i mid hmid
+    cases h
+    refine ⟨mid, hmid, fun i hi => ?_⟩
+    simp only [List.mem_append]
+    exact Or.inl (Or.inr hi)
+
+/-- The six analyzers with decision logic (indentation, threshold, condition, Simulate, command, macro) complete
+    without raising, for every program, every tag and command set — tags may carry units the unit table lacks —
+    and every similarity function. -/
+theorem analyzeAll_total (E : Env) (xs : List XNode) (hE : EnvWF E) (hN : ∀ x ∈ xs, NodeWF x.n) :
+    ∃ items, analyzeAll E true xs = .ok items := by
+  have hN' : ∀ n ∈ xs.map (·.n), NodeWF n := by
+    intro n hn
+    obtain ⟨x, hx, rfl⟩ := List.mem_map.mp hn
+    exact hN x hx
+  obtain ⟨mid, hmid⟩ := analyze_total E (xs.map (·.n)) hE hN'
+  refine ⟨xs.flatMap indentItems ++ thresholdItems [] xs ++ mid ++ macroItems E xs, ?_⟩
+  simp only [analyzeAll, hmid]
+
+/-- …so the editor keeps every diagnostic of all six: `lint` never collapses to the generic one. -/
+theorem lintAll_keeps_all_diagnostics (E : Env) (xs : List XNode) (hE : EnvWF E) (hN : ∀ x ∈ xs, NodeWF x.n) :
+    ∃ items, analyzeAll E true xs = .ok items ∧ lintAll E true xs = items.map .ofItem ∧
+      Diag.generic ∉ lintAll E true xs := by
+  obtain ⟨items, h⟩ := analyzeAll_total E xs hE hN
+  refine ⟨items, h, by simp only [lintAll, h], ?_⟩
+  simp only [lintAll, h]
+  intro hg
+  obtain ⟨i, _, hi⟩ := List.mem_map.mp hg
+  cases hi
+
+/-- The flagging theorems hold for the full item list as well (stated for the undefined-tag case; the others
+    transfer by `analyzeAll_ok` in the same way). -/
+theorem undefined_tag_flagged_all (E : Env) (xs : List XNode) (items : List Item)
+    (h : analyzeAll E true xs = .ok items) (x : XNode) (hx : x ∈ xs)
+    (hk : x.n.kind = .watch ∨ x.n.kind = .alarm ∨ x.n.kind = .simulate)
+    (c : Cond) (name : String) (hc : x.n.cond = some c) (hname : c.tagName = some name)
+    (hb : isBlank name = false) (hu : ∀ t ∈ E.tags, t.name ≠ name) :
+    ∃ i ∈ items, i.line = x.n.line ∧ i.isError = true ∧ i.id = "UndefinedTag" := by
+  obtain ⟨mid, hmid, hsub⟩ := analyzeAll_ok h
+  obtain ⟨i, hi, hrest⟩ := undefined_tag_flagged E _ mid hmid x.n (List.mem_map_of_mem hx) hk c name hc hname hb hu
+  exact ⟨i, hsub i hi, hrest⟩
+
+theorem undefined_command_flagged_all (E : Env) (xs : List XNode) (items : List Item)
+    (h : analyzeAll E true xs = .ok items) (x : XNode) (hx : x ∈ xs) (b : Bool) (hk : x.n.kind = .command b)
+    (hb : isBlank (cmdName x.n) = false) (hu : ∀ c ∈ E.cmds, c.name ≠ cmdName x.n) :
+    ∃ i ∈ items, i.line = x.n.line ∧ i.isError = true ∧ i.id = "UndefinedCommand" := by
+  obtain ⟨mid, hmid, hsub⟩ := analyzeAll_ok h
+  obtain ⟨i, hi, hrest⟩ := undefined_command_flagged E _ mid hmid x.n (List.mem_map_of_mem hx) b hk hb hu
+  exact ⟨i, hsub i hi, hrest⟩
+
+/-- The analyzers that are not modelled — unreachable code, infinite block, whitespace — and the shared base /
+    facade classes contain no partial operation (subscript read, `del`, `max`/`min`/`next`/`int`/`float`,
+    `.index`/`.pop`/`.remove`, raising collection or unit API, `raise`, `assert`, division): every entry of the
+    table regenerated from analyzer.py belongs to one of the six modelled analyzers or to `AnalyzerItem.__init__`
+    (whose `raise` needs both `length=` and `end=`, which no call site passes: kind `item` does not occur). -/
+theorem unmodelled_analyzers_have_no_partial_operation :
+    (OPM.Gen.analyzerOps.all fun op =>
+      ["ThresholdCheckAnalyzer", "ConditionCheckAnalyzer", "SimulateCheckAnalyzer", "CommandCheckAnalyzer",
+       "MacroCheckAnalyzer", "AnalyzerItem", "<module>"].contains op.1 && op.2.2.1 != "item") = true ∧
+    OPM.Gen.analyzerOrder = ["UnreachableCodeCheckAnalyzer", "InfiniteBlockCheckAnalyzer", "IndentationCheckAnalyzer",
+      "ThresholdCheckAnalyzer", "WhitespaceCheckAnalyzer", "ConditionCheckAnalyzer", "SimulateCheckAnalyzer",
+      "CommandCheckAnalyzer", "MacroCheckAnalyzer"] := by
+  decide +kernel
+
+/-- a program for all six: bad indentation (line 0), thresholds out of order (2 limits 1), a tag whose unit the
+    table lacks compared in another unit (3), an undefined macro call without any macro defined (4), a macro that
+    is redefined (5, 7), calls itself (7) and is never called from outside -/
+def demoX : List XNode := [
+  ⟨⟨0, .other, none, "Mark", "", "a", true, true⟩, true, false, none, 0, .none⟩,
+  ⟨⟨1, .other, none, "Mark", "", "b", true, true⟩, false, false, some 10, 0, .none⟩,
+  ⟨⟨2, .other, none, "Mark", "", "c", true, true⟩, false, false, some 2, 0, .none⟩,
+  ⟨⟨3, .watch, some ⟨some "Dist", ">", "3 L/h", some "3", some "L/h"⟩, "Watch", "", "Dist > 3 L/h", true, true⟩,
+    false, false, none, 0, .none⟩,
+  ⟨⟨4, .other, none, "Call macro", "", "M", true, true⟩, false, false, none, 0, .call "M"⟩,
+  ⟨⟨5, .other, none, "Macro", "", "M", true, true⟩, false, false, none, 0, .macro "M" false⟩,
+  ⟨⟨7, .other, none, "Macro", "", "M", true, true⟩, false, false, none, 0, .macro "M" true⟩]
+
+example : analyzeAll demoEnv true demoX = .ok [
+    ⟨.indentation, "InvalidIndentation", 0, true, false⟩,
+    ⟨.threshold, "ThresholdOutOfOrder", 2, false, false⟩, ⟨.threshold, "ThresholdOutOfOrder", 1, false, false⟩,
+    ⟨.condition, "InvalidUnit", 3, true, false⟩,
+    ⟨.macro, "MacroCalledNotDefined", 4, true, false⟩, ⟨.macro, "MacroRedefined", 7, false, false⟩,
+    ⟨.macro, "MacroRecursive", 7, true, false⟩,
+    ⟨.macro, "MacroUnused", 5, false, false⟩, ⟨.macro, "MacroUnused", 7, false, false⟩] := by decide +kernel
+
+/-- Regression witness: before `fixes/C19-tag-unit-unknown-to-unit-table.diff` a condition on a tag whose unit the
+    unit table lacks made the analyzer raise (`ValueError: Invalid unit: 'furlong'`) and lint collapse. -/
+theorem old_tag_unit_crashes :
+    analyzeAll demoEnv false [demoX[3]] = .error .tagUnitInvalid ∧ lintAll demoEnv false [demoX[3]] = [.generic] ∧
+    analyzeAll demoEnv true [demoX[3]] = .ok [⟨.condition, "InvalidUnit", 3, true, false⟩] := by decide +kernel
 
 end OPM.C19
